@@ -59,11 +59,10 @@ func (m c01) roundTrip(c *Ctx, s *SchemaSpec, schema *jsonapi.Schema, t *TypeSpe
 		return
 	}
 	// the source resource must itself hold the spec (guards the harness, and C17 covers it as a property)
+	// the resource must read what was put into it: what the statement calls "the resource" is the value
+	// that was Set (C17 judges this law in general; here it is the left-hand side of the round trip)
 	if cl, msg := compareResource(t, rs, res, nil, false); cl != "" {
-		c.Count("source_mismatch_skipped/" + cl)
-		if c.Verbose {
-			fmt.Println("  source mismatch:", msg)
-		}
+		c.Violate("source-reads-differently/"+cl+"/"+impl, "a freshly built resource does not read the value that was set: %s; spec=%s", msg, clip(rs.canon(), 800))
 		return
 	}
 	fields, relData := allFieldsAndRelData(s)
@@ -123,6 +122,51 @@ func (m c01) Case(c *Ctx, r *RNG) {
 	m.roundTrip(c, s, schema, t, rs, prefix, false)
 	m.roundTrip(c, s, schema, t, rs, prefix, true)
 	c.Sample(map[string]any{"type": t, "resource": rs, "prefix": prefix})
+	// the same resource as a member of a collection that mixes the schema's types (any position)
+	var members []*ResSpec
+	for i := r.Range(1, 4); i > 0; i-- {
+		mt := &s.Types[r.Intn(len(s.Types))]
+		members = append(members, genResource(r, mt, genID(r)))
+	}
+	pos := r.Intn(len(members) + 1)
+	members = append(members[:pos], append([]*ResSpec{rs}, members[pos:]...)...)
+	m.collectionRoundTrip(c, s, schema, members, prefix)
+}
+
+// collectionRoundTrip marshals resources of several types as one Resources collection, with all fields
+// and all relationship data, and reads them back with UnmarshalCollection.
+func (m c01) collectionRoundTrip(c *Ctx, s *SchemaSpec, schema *jsonapi.Schema, members []*ResSpec, prefix string) {
+	c.Count("evaluations")
+	fields, relData := allFieldsAndRelData(s)
+	var out []byte
+	var got jsonapi.Collection
+	var err error
+	if pi := Guard(func() {
+		col := &jsonapi.Resources{}
+		for _, rs := range members {
+			col.Add(buildResource(s.Type(rs.Type), rs))
+		}
+		out = jsonapi.MarshalCollection(col, prefix, fields, relData)
+		got, err = jsonapi.UnmarshalCollection(out, schema)
+	}); pi != nil {
+		c.Violate("panic@"+pi.Frame+"/"+panicClass(pi.Val)+"/collection", "%s; members %s", pi, clip(jsonStr(members), 1500))
+		return
+	}
+	if err != nil {
+		c.Violate("roundtrip-error/MarshalCollection", "%v; bytes %s", err, clip(string(out), 600))
+		return
+	}
+	if got == nil || got.Len() != len(members) {
+		c.Violate("collection-length", "%d members sent; bytes %s", len(members), clip(string(out), 600))
+		return
+	}
+	for i, rs := range members {
+		if cl, msg := compareResource(s.Type(rs.Type), rs, got.At(i), nil, false); cl != "" {
+			c.Violate("value-changed/collection-member/"+cl, "member %d of a mixed-type collection: %s; members %s bytes %s", i, msg, clip(jsonStr(members), 1200), clip(string(out), 900))
+			return
+		}
+	}
+	c.Count("collection_roundtrip_ok")
 }
 
 // poolValues enumerates the full value pool of a kind.
